@@ -38,7 +38,8 @@ func (o *opt) Match(args []string, c *ParseContext) (bool, []string) {
 		arg := args[idx]
 		switch {
 		case arg == "-":
-			idx++
+			// a lone dash is a positional argument: like any other one, it ends the options
+			return o.theOne.ValueSetFromEnv, args
 		case arg == "--":
 			return o.theOne.ValueSetFromEnv, args
 		case strings.HasPrefix(arg, "--"):
